@@ -65,6 +65,8 @@ def group_runs(g, tier):
             W('ovl(mem,mem)', 'random', lts='deep', walks=150 if q else 3000, length=3, split=True),
             W('ovl(mem,mem,mem)', 'random', lts='deep', names='prefix', walks=100 if q else 3000, length=3, split=True),
             W('ovl(mem,mem,mem,mem)', 'random', lts='small', walks=60 if q else 2000, length=3, split=True),
+            # layers that are sibling directories of ONE filesystem instance
+            W('ovlsh(2)', 'random', walks=25 if q else 1500, length=30, split=True), W('ovlsh(3)', 'edges', lts='deep', frac=0.04 if q else 1.0, split=True),
         ]
         if not q:
             runs += [W('ovl(mem,mem,mem,mem)', 'random', walks=500, length=40, split=True),
@@ -129,7 +131,8 @@ def group_runs(g, tier):
                 W('alt(zr,mem)', 'random', walks=15 * k, length=50, ops=T), W('alt(zr/zs,phys)', 'random', walks=10 * k, length=50, ops=T, names='dotted'),
                 W('ovl(mem,mem)', 'random', walks=25 * k, length=50, ops=T, split=True), W('ovl(mem,mem)', 'random', walks=15 * k, length=40, ops=T, split=True, lower_only=True, lts='deep'),
                 W('ovl(phys,phys)', 'random', walks=10 * k, length=40, ops=T, split=True), W('ovl(mem,phys)', 'random', walks=10 * k, length=40, ops=T, split=True, lower_only=True),
-                W('ovl(mem,mem,mem)', 'random', walks=10 * k, length=40, ops=T, split=True, lower_only=True)]
+                W('ovl(mem,mem,mem)', 'random', walks=10 * k, length=40, ops=T, split=True, lower_only=True),
+                W('ovlsh(2)', 'random', walks=15 * k, length=40, ops=T, split=True, lower_only=True)]
     if g == 'emb':
         return [dict(kind='emb', tspec='Trace_Tree')]
     if g == 'faults':
